@@ -122,4 +122,4 @@ QUERIES = [
           bounds=lambda tier: {"cells": N, "masks": "all 8", "requests": 2, "flag_flip_between": "none or one cells", "dag": "pointers symbolic"},
           outside=["N > 3"]),
 ]
-BUDGET = {"quick": 420, "thorough": 3000}
+BUDGET = {"quick": 420, "thorough": 1200}
